@@ -34,7 +34,7 @@ pub fn mutations(max: usize) -> BoxedStrategy<Vec<Mutation>> {
 
 pub const ZINC_TOKENS: &[&str] = &[
     "[", "]", "{", "}", "<<", ">>", ",", ":", "\n", "\r\n", "\r", " ", "\"", "\\", "`", "@", "^", "ver:\"3.0\"", "N", "M", "NA", "T", "F", "INF", "-INF", "NaN", "C(", ")", "-", ".", "e", "E", "_", "1",
-    "2021-01-01", "T00:00:00", "Z", " UTC", "+01:00 ", "12:00:00", "\\u00", "\\u", "$", "kW", "°F", "%", "a", "Bin(", "<", ">", "\u{0}", "\u{ff}",
+    "2021-01-01", "T00:00:00", "Z", " UTC", "+01:00 ", "12:00:00", "\\u00", "\\u", "\\ud83d", "\\udbff\\uffff", "\\ud800", "\\udc00", "\\uD83D\\uDE00", "$", "kW", "°F", "%", "a", "Bin(", "<", ">", "\u{0}", "\u{ff}",
 ];
 
 pub const JSON_TOKENS: &[&str] = &[
